@@ -303,7 +303,7 @@ func c01instGen(c *h.Ctx, yield func(*h.Case)) {
 	yield(&h.Case{Class: "inst-corpus", Ops: []string{"c01 iarrive 9 1", "c01 iarrive 7 2", "c01 ictor 9", "c01 ictor 7", "c01 iarrive 9 3", "c01 iarrive 7 4"}})
 	// a message for a live instance waits for the lock while the instance finishes: dropped, no second instance
 	yield(&h.Case{Class: "inst-corpus", Ops: []string{"c01 iarrive 9 1", "c01 ictor 9", "c01 iarrive 7 2", "c01 iarrive 9 3", "c01 idone 9", "c01 ictor 7", "c01 iarrive 9 4", "c01 iarrive 7 5"}})
-	for n := 0; n < c.Pick(40, 600); n++ {
+	for n := 0; n < c01pick(c, 40, 600, 120); n++ {
 		cs := &h.Case{Class: "inst"}
 		m := 0
 		ctor := -1       // token whose constructor runs
